@@ -18,6 +18,7 @@ OBLIGATIONS = [
     (P + "double_arm_drops_first_counterexample", "D12 witness on the model: first of two readable handlers on one fd is destroyed uninvoked"),
     (P + "fullNoLoss_false", "the unrestricted no-loss statement is false of the code (D12)"),
     (P + "cancel_overtakes_queued_arm_counterexample", "second witness on the model: a cancel issued after a cross-thread (queued) arm runs before it; the handler stays armed, never completed"),
+    (P + "stale_timer_id_cancels_other_counterexample", "third witness on the model: cancel_timer_event with the id of a timer that already fired completes an unrelated timer (slot reused) with `canceled`"),
     (P + "no_loss_partial", "PARTIAL (hypothesis NoDoubleArm): no handler is destroyed by a slot overwrite"),
     (P + "invoked_or_pending_partial", "PARTIAL (NoDoubleArm, no reset): every issued handler is invoked once xor still held once"),
     (P + "timer_not_early", "for all histories: a timer handler invoked with success ran after a run_one clock reading >= its deadline"),
@@ -40,10 +41,13 @@ D12_ID = "aio-double-arm-drops-handler"
 STALE_ID = "aio-queued-arm-overtaken-by-cancel-close"
 D12_CASE = "L 1 0 P0=- S start ar:0:0 ar:0:0 pw:0 step:0 step:0 step"
 STALE_CASE = "L 1 0 P0=- P1=cl:0 S start post:1 ar:0:0 step step step step"
+SLOT_ID = "aio-stale-timer-id-cancels-other-timer"
+SLOT_CASE = "X 30000"
 RECORDED = {
     D12_ID: {b: "log 1:ok:0:L | alive | kinds 0:i 1:i | phase polling" for b in ("epoll", "poll", "select")},
     # the arm (queued while the loop polls) runs after the handler's cancel+close: epoll reports EBADF (handled: passes
     # the judge), poll leaves the handler armed on a dead descriptor for ever, select makes run() throw EBADF
+    SLOT_ID: {b: "A 1:ok B-canceled 1" for b in ("epoll", "poll", "select")},
     STALE_ID: {"poll": "log 0:ok:0:L | alive 1 | kinds 0:p 1:i | phase polling",
                "select": "log 0:ok:0:L | alive 1 | kinds 0:p 1:i | phase failed"},
 }
@@ -321,7 +325,7 @@ def main():
         cases = keep
         c.extra_cov["generated_cases_discarded_because_double_arm"] = dropped_da
         c.extra_cov["generated_cases_discarded_because_arm_ran_after_close"] = dropped_stale
-        loopish = [cs for cs in cases if cs[0] in "LC"]
+        loopish = [cs for cs in cases if cs[0] in "LCX"]
         poolish = [cs for cs in cases if cs[0] == "K"]
         all_bad = []
         witness_seen = {}
@@ -366,6 +370,10 @@ def main():
                     if cs_list[k].startswith("C"):
                         if out_i[k] != "ok":
                             bad.append(k)
+                    elif cs_list[k].startswith("X"):
+                        # a timer that nobody cancelled must not complete with `canceled`
+                        if out_i[k] != "A 1:ok B-canceled 0":
+                            bad.append(k)
                     else:
                         bad.append(k)       # hung / bad-op / no observation
             c.extra_cov["judged_impl_outputs"] = c.extra_cov.get("judged_impl_outputs", 0) + len(jl)
@@ -395,6 +403,9 @@ def main():
         if not c.replay_path:
             for fid, what in ((D12_ID, "two on_readable on one descriptor: first handler destroyed without being invoked "
                                         "(witness gen/corpus/C17/d12-double-arm.case)"),
+                              (SLOT_ID, "deadline_timer::cancel() after expiry but before the handler ran passes a stale event id: "
+                                        "an unrelated timer that reused the slot completes with `canceled` "
+                                        "(witness gen/corpus/C17/stale-timer-id.case)"),
                               (STALE_ID, "on_readable queued from another thread, then cancel+close from a handler runs directly and "
                                          "overtakes it: handler armed on a closed descriptor, never invoked (poll) / run() throws EBADF "
                                          "(select) (witness gen/corpus/C17/stale-arm.case)")):
@@ -407,7 +418,7 @@ def main():
                 else:
                     b0 = sorted(seen)[0]
                     c.violation("known-finding witness fails differently from what is recorded (or the finding is not listed)",
-                                {"backend": b0, "case": D12_CASE if fid == D12_ID else STALE_CASE, "impl_output": seen[b0],
+                                {"backend": b0, "case": {D12_ID: D12_CASE, STALE_ID: STALE_CASE, SLOT_ID: SLOT_CASE}[fid], "impl_output": seen[b0],
                                  "recorded": RECORDED[fid], "observed": seen})
             # if a witness passes the judge everywhere the defect is gone: the model (faithful to the old behaviour)
             # then differs and the correspondence diff above reports it
@@ -434,7 +445,7 @@ def main():
 
 def cs_tag(cs):
     """the known-finding witnesses of the corpus are recognised by their exact text"""
-    return D12_ID if cs == D12_CASE else STALE_ID if cs == STALE_CASE else ""
+    return D12_ID if cs == D12_CASE else STALE_ID if cs == STALE_CASE else SLOT_ID if cs == SLOT_CASE else ""
 
 
 if __name__ == "__main__":
